@@ -3,11 +3,14 @@ package main
 import (
 	"bytes"
 	"encoding/binary"
+	"errors"
 	"fmt"
 	"hash/crc32"
+	"io"
 	"os"
 	"path/filepath"
 	"strings"
+	"syscall"
 	"time"
 
 	"github.com/foxboron/go-uefi/efi/signature"
@@ -17,6 +20,22 @@ import (
 // streamEval decodes one byte string with the real decoder, the Lean Impl model and the Lean Spec.
 // prop = "C07": report the inverse-on-well-formed-data oracle; prop = "C08": report the strictness oracle.
 func streamEval(c *Ctx, cs Case, prop string) {
+	if cs.S("fault") != "" {
+		// a failing case is reduced to the bytes the reader delivered (what lies behind the failure never reaches the decoder)
+		n0 := c.NFailures()
+		faultEval(c, cs, prop)
+		if at := int(cs.I("faultat")); c.NFailures() > n0 && at >= 0 && at < len(unhx(cs.S("bytes"))) {
+			cand := Case{}
+			for k, v := range cs {
+				cand[k] = v
+			}
+			cand["bytes"] = hx(unhx(cs.S("bytes"))[:at])
+			if fs := c.Probe(func(p *Ctx) { faultEval(p, cand, prop) }); len(fs) > 0 {
+				c.ReplaceFailuresFrom(n0, fs)
+			}
+		}
+		return
+	}
 	b := unhx(cs.S("bytes"))
 	cls := cs.S("class")
 	if cls == "" {
@@ -154,6 +173,156 @@ func streamEval(c *Ctx, cs Case, prop string) {
 					}
 				}
 			}
+		}
+	}
+}
+
+// ---- sources that fail ----
+//
+// The inputs of the property reach the decoder through an io.Reader, and a reader has a third way to
+// stop besides "more data" and io.EOF: it fails (I/O error, closed file, deadline, broken pipe). Then
+// the input has NOT ended: whatever was delivered so far is not "the whole input consumed as
+// well-formed lists", so decoding must report an error - at every position, also exactly between two
+// lists and before the first byte, where a clean end of input would be legitimate.
+
+var faultKinds = []string{"io-error", "closed", "timeout", "broken-pipe"}
+var faultModes = []string{"after-data", "with-data"}
+
+func faultErr(kind string) error {
+	switch kind {
+	case "closed":
+		return os.ErrClosed
+	case "timeout":
+		return os.ErrDeadlineExceeded
+	case "broken-pipe":
+		return io.ErrClosedPipe
+	}
+	return &os.PathError{Op: "read", Path: "db", Err: syscall.EIO}
+}
+
+// faultReader delivers data and then fails with err on every further call; withData: the call that
+// delivers the last bytes already returns err (both are behaviours io.Reader permits)
+type faultReader struct {
+	data     []byte
+	pos      int
+	err      error
+	withData bool
+	hit      bool // the failure was handed to the caller
+}
+
+func (r *faultReader) Read(p []byte) (int, error) {
+	if len(p) == 0 {
+		return 0, nil
+	}
+	if r.pos >= len(r.data) {
+		r.hit = true
+		return 0, r.err
+	}
+	n := copy(p, r.data[r.pos:])
+	r.pos += n
+	if r.withData && r.pos == len(r.data) {
+		r.hit = true
+		return n, r.err
+	}
+	return n, nil
+}
+
+func faultEval(c *Ctx, cs Case, prop string) {
+	b := unhx(cs.S("bytes"))
+	at := int(cs.I("faultat"))
+	if at < 0 || at > len(b) {
+		return
+	}
+	kind, mode := cs.S("fault"), cs.S("faultmode")
+	mk := func() *faultReader {
+		return &faultReader{data: append([]byte{}, b[:at]...), err: faultErr(kind), withData: mode == "with-data"}
+	}
+	scribble := func(r *faultReader) {
+		for i := range r.data {
+			r.data[i] = 0xEE
+		}
+	}
+	fail := func(what, goObs string) {
+		c.Fail(Failure{Kind: "property", What: what, Case: cs, Go: clip(goObs),
+			Spec: fmt.Sprintf("an error: the reader failed (%v) after delivering %d of %d bytes, the input did not end", faultErr(kind), at, len(b))})
+	}
+	// the whole database
+	r := mk()
+	var db signature.SignatureDatabase
+	var err error
+	panicked, pmsg := safely(func() { db, err = signature.ReadSignatureDatabase(r) })
+	scribble(r)
+	obs := "err"
+	switch {
+	case panicked:
+		obs = "panic"
+	case err == nil:
+		obs = "ok"
+	}
+	c.Count(cs.Key(), len(b) > 0, prop+"/read-fault/"+kind+"/"+mode+"/"+obs)
+	switch {
+	case panicked:
+		fail("decoder panicked: "+pmsg, "panic")
+	case err == nil:
+		fail(fmt.Sprintf("ReadSignatureDatabase returned a database of %d list(s) and no error although its reader failed: a read failure was taken for the end of the database", len(db)), "ok "+goDbStr(db))
+	case r.hit && errors.Is(err, io.EOF):
+		fail("ReadSignatureDatabase reports a failed read as an error matching io.EOF (the end-of-input signal)", "err "+err.Error())
+	}
+	// the single-list entry point: io.EOF is its "no more lists" answer and must not be given for a failed read
+	r = mk()
+	var l *signature.SignatureList
+	panicked, pmsg = safely(func() { l, err = signature.ReadSignatureList(r) })
+	scribble(r)
+	switch {
+	case panicked:
+		fail("ReadSignatureList panicked: "+pmsg, "panic")
+	case r.hit && err != nil && errors.Is(err, io.EOF):
+		fail("ReadSignatureList answers io.EOF (no more lists) although its reader failed", "err "+err.Error())
+	case r.hit && err == nil && !(mode == "with-data" && r.pos == len(r.data) && l != nil && int(l.ListSize) == at):
+		// the failure reached the decoder while it was reading this list: only a list that was
+		// complete with the very call that carried the failure may be returned
+		fail("ReadSignatureList returned a list and no error although the reader failed while the list was read", "ok "+goListStr(l))
+	}
+}
+
+// listBoundaries walks the ListSize fields of a stream (independent of the library): offsets at which a list starts or the stream ends
+func listBoundaries(b []byte) []int {
+	out := []int{0}
+	off := 0
+	for off+28 <= len(b) {
+		ls := int(binary.LittleEndian.Uint32(b[off+16:]))
+		if ls < 28 || off+ls > len(b) {
+			break
+		}
+		off += ls
+		out = append(out, off)
+	}
+	return out
+}
+
+// faultCases emits, for one stream, a failing reader at every list boundary (all failure kinds, both
+// delivery modes) and at the other positions (every one, or a sample of them for long streams) with the kind rotating
+func faultCases(c *Ctx, b []byte, salt int, emit func(Case)) {
+	isB := map[int]bool{}
+	if c.NFailures() >= 8 {
+		return
+	}
+	for _, o := range listBoundaries(b) {
+		isB[o] = true
+		for _, k := range faultKinds {
+			for _, m := range faultModes {
+				emit(Case{"op": "stream", "class": "read-fault/boundary", "bytes": hx(b), "fault": k, "faultmode": m, "faultat": int64(o)})
+			}
+		}
+	}
+	stride := 1
+	if len(b) > c.P(800, 4000) {
+		stride = len(b)/c.P(400, 2000) + 1
+	}
+	for at := 0; at <= len(b); at += stride {
+		if !isB[at] {
+			emit(Case{"op": "stream", "class": "read-fault/inside", "bytes": hx(b), "fault": faultKinds[(at+salt)%len(faultKinds)],
+				"faultmode": faultModes[(at/len(faultKinds)+salt)%len(faultModes)], "faultat": int64(at)})
 		}
 	}
 }
@@ -350,6 +519,10 @@ func c08Gen(c *Ctx) {
 	emit := func(cls string, b []byte) {
 		streamEval(c, Case{"op": "stream", "class": cls, "bytes": hx(b)}, "C08")
 	}
+	emitFault := func(cs Case) { streamEval(c, cs, "C08") }
+	for i, b := range fixtureStreams(c) {
+		faultCases(c, b, i, emitFault)
+	}
 	for _, b := range fixtureStreams(c) {
 		emit("fixture", b)
 		for _, cut := range []int{1, 15, 16, 20, 24, 27, 28, 29, 44, len(b) - 1, len(b) - 16, len(b) / 2} {
@@ -364,6 +537,7 @@ func c08Gen(c *Ctx) {
 		ls, b := genStream(c, true, maxL)
 		if len(ls) == 0 {
 			emit("wf/empty", b)
+			faultCases(c, b, i, emitFault)
 			continue
 		}
 		// keep lists small so that every truncation point can be tried
@@ -371,6 +545,8 @@ func c08Gen(c *Ctx) {
 			continue
 		}
 		emit("wf", b)
+		// a source that fails instead of ending: at every position of the stream
+		faultCases(c, b, i, emitFault)
 		// every truncation point (exhaustive)
 		for cut := 1; cut < len(b); cut++ {
 			emit("truncated", b[:cut])
@@ -417,7 +593,7 @@ func init() {
 		Eval:   c07Eval, Gen: c07Gen,
 	})
 	register("C08", &PropDef{
-		Rule:   "near-grammar byte strings derived from generated well-formed streams of handled types: EVERY truncation point, sweeps of ListSize / HeaderSize / SignatureSize of the last list over {0,1,15,16,17,27,28,29,exact±1,+Size,2x,2^31,2^32-1,...}, trailing garbage / zeros of 1..40 bytes, a valid stream followed by the first 16/20/24/28 bytes of another list, unsupported types, single bit flips; plus the repository fixtures and cuts of them. Non-trivial: non-empty; distinct = distinct byte strings.",
+		Rule:   "near-grammar byte strings derived from generated well-formed streams of handled types: EVERY truncation point, sweeps of ListSize / HeaderSize / SignatureSize of the last list over {0,1,15,16,17,27,28,29,exact±1,+Size,2x,2^31,2^32-1,...}, trailing garbage / zeros of 1..40 bytes, a valid stream followed by the first 16/20/24/28 bytes of another list, unsupported types, single bit flips; plus the repository fixtures and cuts of them. Sources that FAIL instead of ending: every generated well-formed stream (and every fixture; positions sampled for streams above 800 bytes) is also handed to ReadSignatureDatabase and ReadSignatureList through a reader that delivers the first k bytes and then fails with a non-EOF error (I/O error, closed file, deadline exceeded, closed pipe; the error arriving after or together with the last bytes) for EVERY k in 0..len - all kinds and both modes at k = 0 and at every list boundary, where a clean end would be legitimate, the kind rotating elsewhere; oracle: the input did not end, so an error that does not match io.EOF is required and no database / list may be returned. Non-trivial: non-empty; distinct = distinct byte strings (x failure position, kind, mode).",
 		Assume: []string{},
 		Eval:   c08Eval, Gen: c08Gen,
 	})
